@@ -256,13 +256,13 @@ theorem C14_relocation_rejected_failed (env : Env) (met : Trace.MetCallResult) (
 /-- **canon results**: `handle_canon_executed` accepts a canon result from merged data only if the
 tetraplet stored for it is exactly (the peer the canon instruction resolves, "", "", "") — a canon
 result of another peer, or one with a service/function/lens smuggled into its tetraplet, is not taken -/
-theorem C14_use_site_bound_canon (env : Env) (canonName : String) (peer : Air.Value) (cid : Cid) (c : Ctx)
+theorem C14_use_site_bound_canon (env : Env) (canonName : CanonTarget) (peer : Air.Value) (cid : Cid) (c : Ctx)
     (h : (canonExecuted env canonName peer cid c).1 = .ok ()) :
     ∃ peerId agg, resolveToString c peer = .ok peerId ∧ lookup c.cid.canonResults cid = some agg ∧
       getTetrapletByCid c.cid agg.tetraplet = .ok ({ peerPk := peerId } : Tetraplet) :=
   canonExecuted_ok h
 
-theorem C14_canon_relocation_rejected (env : Env) (canonName : String) (peer : Air.Value) (cid : Cid) (c : Ctx)
+theorem C14_canon_relocation_rejected (env : Env) (canonName : CanonTarget) (peer : Air.Value) (cid : Cid) (c : Ctx)
     (peerId : String) (agg : CanonResultAgg) (t : Tetraplet)
     (hp : resolveToString c peer = .ok peerId) (hl : lookup c.cid.canonResults cid = some agg)
     (ht : getTetrapletByCid c.cid agg.tetraplet = .ok t) (hne : ({ peerPk := peerId } : Tetraplet) ≠ t) :
